@@ -10,6 +10,7 @@ pub mod c16;
 pub mod c17;
 #[cfg(feature = "full")]
 pub mod c18;
+pub mod c19;
 pub mod c20;
 pub mod gen_error_variants;
 
